@@ -167,42 +167,59 @@ def check_graph(repo, chk):
     for m in ("add_node", "add_edge", "copy", "get_decay_chain"):
         if m not in gc.methods:
             raise AnalysisError("_Chain_Graph.%s vanished" % m)
-    worlds = [
-        [("A", "b")],
-        [("A", "v0"), ("v0", "b"), ("v0", "c")],
-        [("A", "v0"), ("v0", "v1"), ("v1", "b"), ("v1", "d"), ("v0", "c")],
-    ]
+    # graphs are built through the class's own interface (constructor, add_edge, add_node); only `.edges` - the
+    # attribute from_particles itself reads - is looked at, private bookkeeping (node list, counter) is not
+    def build(tr, n_extra):
+        g = tr.apply(gc, [], {}, None, 0)
+        tr.call_fn(gc.methods["add_edge"], ["A", "b"], {}, self_obj=g)
+        for k in range(n_extra):
+            e0 = list(g.attrs["edges"])[-1 if k % 2 else 0]
+            tr.call_fn(gc.methods["add_node"], [e0, "p%d" % k], {}, self_obj=g)
+        return g
+
+    def endpoints(edges):
+        return {x for e in edges for x in e}
+
     n = 0
-    for edges in worlds:
-        nodes = sorted({x for e in edges for x in e if x.startswith("v")})
-        for e in edges:
+    for n_extra in (0, 1, 2):
+        probe = make_tr(repo)
+        try:
+            n_edges = len(build(probe, n_extra).attrs["edges"])
+        except Unmodelled as ex:
+            raise AnalysisError("_Chain_Graph cannot be built in the abstract run: %s" % ex)
+        except KeyError:
+            raise AnalysisError("_Chain_Graph no longer keeps its edges in `.edges` (from_particles reads g.edges)")
+        for idx in range(n_edges):
             tr = make_tr(repo)
-            g = SelfObj(gc, {"nodes": list(nodes), "edges": list(edges), "count": len(nodes)})
             try:
+                g = build(tr, n_extra)
+                edges = [tuple(x) for x in g.attrs["edges"]]
+                e = edges[idx]
                 g2 = tr.call_fn(gc.methods["copy"], [], {}, self_obj=g)
                 tr.call_fn(gc.methods["add_node"], [e, "NEW"], {}, self_obj=g2)
             except Unmodelled as ex:
                 raise AnalysisError("_Chain_Graph.copy / add_node cannot be interpreted: %s" % ex)
             n += 1
-            ok_copy = g.attrs["edges"] == list(edges) and g.attrs["nodes"] == list(nodes) and g.attrs["count"] == len(nodes)
-            if not ok_copy:
+            if [tuple(x) for x in g.attrs["edges"]] != edges:
                 chk.violation("G-copy", gc.methods["copy"].key, "alias", "adding a node to graph.copy() changed the original graph (edges %s -> %s): sibling topologies share their edge list" % (edges, g.attrs["edges"]), file=PART, line=gc.methods["copy"].lineno)
-            new_nodes = [x for x in g2.attrs.get("nodes", []) if x not in nodes]
-            got = sorted(g2.attrs.get("edges", []))
-            ok = len(new_nodes) == 1 and new_nodes[0] not in {x for ed in edges for x in ed}
+            got = sorted(tuple(x) for x in g2.attrs.get("edges", []))
+            fresh = sorted(endpoints(got) - endpoints(edges) - {"NEW"})
+            ok = len(fresh) == 1
             if ok:
-                v = new_nodes[0]
+                v = fresh[0]
                 want = sorted([x for x in edges if x != e] + [(e[0], v), (v, e[1]), (v, "NEW")])
                 ok = got == want and len(got) == len(edges) + 2
             if not ok:
-                chk.violation("G-step", gc.methods["add_node"].key, "insert:%d" % len(edges), "inserting a particle on the edge %s of %s gives the edges %s (new nodes %s), expected the edge split at one fresh node with the particle attached" % (e, edges, got, new_nodes), file=PART, line=gc.methods["add_node"].lineno)
-            # a second insertion must again create a fresh node (the counter advances)
+                chk.violation("G-step", gc.methods["add_node"].key, "insert:%d" % len(edges), "inserting a particle on the edge %s of %s gives the edges %s (new inner nodes %s), expected the edge split at one fresh node with the particle attached" % (e, edges, got, fresh), file=PART, line=gc.methods["add_node"].lineno)
+            # a second insertion must again create a fresh node
             try:
-                tr.call_fn(gc.methods["add_node"], [g2.attrs["edges"][0], "NEW2"], {}, self_obj=g2)
+                before = [tuple(x) for x in g2.attrs["edges"]]
+                tr.call_fn(gc.methods["add_node"], [before[0], "NEW2"], {}, self_obj=g2)
             except Unmodelled as ex:
                 raise AnalysisError("_Chain_Graph.add_node cannot be interpreted twice: %s" % ex)
-            if len(set(g2.attrs["nodes"])) != len(g2.attrs["nodes"]):
-                chk.violation("G-step", gc.methods["add_node"].key, "fresh-node", "two insertions create the same inner node %s" % (g2.attrs["nodes"],), file=PART, line=gc.methods["add_node"].lineno)
+            fresh2 = endpoints(tuple(x) for x in g2.attrs["edges"]) - endpoints(before) - {"NEW2"}
+            if len(fresh2) != 1:
+                chk.violation("G-step", gc.methods["add_node"].key, "fresh-node", "a second insertion re-uses an inner node (edges %s -> %s): two different vertices of the tree become one" % (before, g2.attrs["edges"]), file=PART, line=gc.methods["add_node"].lineno)
     chk.oblige("G-step", "add_node on every edge of graphs with 1, 3, 5 edges (%d insertions): edge split at a fresh node, other edges untouched" % n, True)
     chk.oblige("G-copy", "copy() then add_node leaves the original graph unchanged (%d cases)" % n, True)
 
@@ -394,7 +411,7 @@ def check_classes(repo, chk, finals, chains, objs, tr):
     gc = repo.cls(PART + "::DecayGroup")
     tsf, gcm = gc.methods["topology_structure"], gc.methods["get_chains_map"]
     ref = [str(groupings(ds, finals)) for ds in chains]
-    groups = [[0], [0, 1], [0, 1, 2, 3], [5, 4, 0, 1], [2, 8, 3, 9, 14, 15], list(range(0, 16, 2)), [7, 6, 29, 28, 1], [0, 2, 5, 3], [41, 44, 43, 2]]
+    groups = [[0], [0, 1], [0, 1, 2, 3], [5, 4, 0, 1], [2, 8, 3, 9, 14, 15], list(range(0, 16, 2)), [7, 6, 29, 28, 1], [0, 2, 5, 3], [41, 44, 43, 2], [0, 3, 1, 4, 2, 9, 5]]  # the last one returns to earlier classes after other ones
     bad = None
     for idxs in groups:
         grp = SelfObj(gc, {"chains": [objs[i] for i in idxs]})
